@@ -47,7 +47,7 @@ def env_at(scn, opidx):
 
 def has_async_fault(scn, dtid, k):
     for f in scn.get('plan', []):
-        if f.get('dt') == dtid and f.get('k') == k and ('trace' in f or 'trace_frac' in f or 'stream_write' in f or 'stream_flush' in f):
+        if f.get('dt') == dtid and f.get('k') == k and ('trace' in f or 'trace_frac' in f or 'stream_write' in f or 'stream_flush' in f or f.get('kind') == 'nonascii'):
             return True
     return False
 
